@@ -445,6 +445,35 @@ theorem session_decodes_v11 (sc nh : Bool) (inners : List Bytes)
   session_decodes .v11 sc nh inners
     (fun r hr => ⟨session_raws_ne_nil .v11 sc nh _ inners r hr, hsize r hr⟩)
 
+/-! ## a session that ends early (failed call, transport write failure between two requests) -/
+
+/-- the stream of a session is the stream of its first `k` requests followed by the bytes of the
+remaining ones: a failure after request `k` leaves a stream that is itself a complete session -/
+theorem wire_take_append (v : Version) (sc nh : Bool) (bodies : List Bytes) (k : Nat) :
+    wire v sc nh bodies
+      = wire v sc nh (bodies.take k) ++ ((bodies.drop k).map (sendOne v sc nh)).flatten := by
+  unfold wire
+  conv => lhs; rw [← List.take_append_drop k bodies]
+  simp only [List.map_append, List.flatten_append, List.append_assoc]
+
+theorem legalRaws_take (v : Version) (sc nh : Bool) (bodies : List Bytes) (k : Nat)
+    (h : LegalRaws v (raws v sc nh bodies)) : LegalRaws v (raws v sc nh (bodies.take k)) := by
+  have hsub : ∀ r ∈ raws v sc nh (bodies.take k), r ∈ raws v sc nh bodies := by
+    intro r hr
+    simp only [raws, List.mem_map] at hr ⊢
+    obtain ⟨b, hb, rfl⟩ := hr
+    exact ⟨b, List.mem_of_mem_take hb, rfl⟩
+  cases v with
+  | v10 => exact fun r hr => h r (hsub r hr)
+  | v11 => exact fun r hr => h r (hsub r hr)
+
+/-- … and the strict decoder recovers exactly the first `k` reported inputs from it -/
+theorem session_cut_decodes (v : Version) (sc nh : Bool) (bodies : List Bytes) (k : Nat)
+    (h : LegalRaws v (raws v sc nh bodies)) :
+    strictDecode v (wire v sc nh (bodies.take k)) = some ((raws v sc nh bodies).take k) := by
+  rw [strictDecode_wire v sc nh _ (legalRaws_take v sc nh bodies k h)]
+  simp [raws, List.map_take]
+
 /-! ## tie to the source: translated body = model (regenerated on every run) -/
 
 /-- the body of `(*message).serialize` as the translator renders it from the current source
